@@ -152,13 +152,26 @@ def stepReply (sr : Msg → Bool) (c : Conn) (ev : Event) : Conn × String :=
   let (c', es) := step sr c ev
   (c', showEffects es ++ " # " ++ showConn c')
 
+/-- an event, or `feed <now> <stamp> <n> <msg>*` = one `read()` chunk of n frames (inner reader loop) -/
+def runEv (sr : Msg → Bool) (c : Conn) (evT : List String) : Option (Conn × String) :=
+  match evT with
+  | "feed" :: now :: stamp :: n :: ms =>
+    match parseEnv now stamp, n.toNat?, ms.mapM parseMsg with
+    | some env, some n, some msgs =>
+      if msgs.length != n then none
+      else
+        let (c', es, _) := feed sr env c msgs
+        some (c', showEffects es ++ " # " ++ showConn c')
+    | _, _, _ => none
+  | _ => (parseEvent evT).map (stepReply sr c)
+
 def handle (st : St) (cmd : String) (args : List String) : St × String :=
   match cmd, args with
   | "step", srT :: rest =>
     match parseSr srT, parseConn rest with
     | some sr, some (c, "E" :: evT) =>
-      match parseEvent evT with
-      | some ev => (st, (stepReply sr c ev).2)
+      match runEv sr c evT with
+      | some r => (st, r.2)
       | none => (st, "bad-op")
     | _, _ => (st, "bad-op")
   | "load", rest =>
@@ -166,11 +179,12 @@ def handle (st : St) (cmd : String) (args : List String) : St × String :=
     | some (c, []) => ({ st with conn := some c }, "ok")
     | _ => (st, "bad-op")
   | "ev", srT :: evT =>
-    match st.conn, parseSr srT, parseEvent evT with
-    | some c, some sr, some ev =>
-      let (c', r) := stepReply sr c ev
-      ({ st with conn := some c' }, r)
-    | _, _, _ => (st, "bad-op")
+    match st.conn, parseSr srT with
+    | some c, some sr =>
+      match runEv sr c evT with
+      | some (c', r) => ({ st with conn := some c' }, r)
+      | none => (st, "bad-op")
+    | _, _ => (st, "bad-op")
   | "feed", srT :: now :: stamp :: n :: ms =>
     match st.conn, parseSr srT, parseEnv now stamp, n.toNat?, ms.mapM parseMsg with
     | some c, some sr, some env, some n, some msgs =>
